@@ -32,13 +32,56 @@ impl Rng {
     /// boundary-biased u128 below 2^bits
     pub fn uint(&mut self, bits: u32) -> u128 {
         let max: u128 = if bits >= 128 { u128::MAX } else { (1u128 << bits) - 1 };
-        match self.below(8) {
+        match self.below(12) {
             0 => 0,
             1 => 1,
             2 => max,
             3 => max - 1,
             4 => (self.next() as u128) & max & 0xff,
+            // structured values: a single bit, a run of low bits, whole bytes / 64-bit digits zeroed
+            // (an encoder that special-cases zero bytes, digits or leading zeros shows on these only)
+            5 => (1u128 << self.below(bits.min(128) as usize)) & max,
+            6 => ((1u128 << self.below(bits.min(128) as usize)) - 1) & max,
+            7 => self.sparse(16) & max,
+            8 => {
+                let lo = if self.below(2) == 0 { 0 } else { self.next() as u128 };
+                let hi = if self.below(3) == 0 { 0 } else { self.next() as u128 };
+                ((hi << 64) | lo) & max
+            }
             _ => (((self.next() as u128) << 64) | self.next() as u128) & max,
         }
+    }
+    /// `n` random bytes (n <= 16), each zeroed with probability 1/2, as a little-endian number
+    pub fn sparse(&mut self, n: usize) -> u128 {
+        let mut v: u128 = 0;
+        for i in 0..n {
+            if self.below(2) == 0 {
+                v |= ((self.next() & 0xff) as u128) << (8 * i);
+            }
+        }
+        v
+    }
+    /// a 256-bit value as four 64-bit digits (least significant first), structured like `uint`
+    pub fn limbs4(&mut self) -> [u64; 4] {
+        let mut l = [0u64; 4];
+        match self.below(4) {
+            0 => l[self.below(4)] = 1u64 << self.below(64),
+            1 => {
+                for d in l.iter_mut() {
+                    *d = match self.below(3) { 0 => 0, 1 => self.next(), _ => self.sparse(8) as u64 };
+                }
+            }
+            2 => {
+                let k = self.below(4);
+                for (i, d) in l.iter_mut().enumerate() {
+                    *d = if i == k { 0 } else { u64::MAX };
+                }
+            }
+            _ => {
+                let k = self.below(4);
+                l[k] = self.next() | 1;
+            }
+        }
+        l
     }
 }
